@@ -214,11 +214,7 @@ func (h *httpAPI) runOp(ledgerName string, o Op) (res OpResult) {
 	}
 	res.Class = "none"
 	res.Hit = resp.Hdr.Get("Idempotency-Hit") == "true"
-	want := map[string]int{"create": 200, "revert": 201, "setmeta": 204, "delmeta": 204}[o.Kind]
-	if resp.Code != want {
-		res.Class = fmt.Sprintf("%d:unexpected-success-status", resp.Code)
-		return res
-	}
+	res.Status = resp.Code // compared with HttpView.success_status through the model's answer
 	if o.Kind == "create" || o.Kind == "revert" {
 		var env struct {
 			Data struct {
@@ -685,11 +681,7 @@ func (h *httpAPI) runOpV1(ledgerName string, o Op) (res OpResult) {
 	}
 	res.Class = "none"
 	res.Hit = resp.Hdr.Get("Idempotency-Hit") == "true"
-	want := map[string]int{"create": 200, "revert": 201, "setmeta": 204, "delmeta": 204}[o.Kind]
-	if resp.Code != want {
-		res.Class = fmt.Sprintf("%d:unexpected-success-status", resp.Code)
-		return res
-	}
+	res.Status = resp.Code // compared with HttpView.success_status through the model's answer
 	type v1tx struct {
 		TxID     *int64 `json:"txid"`
 		Postings []struct {
